@@ -92,7 +92,7 @@ class TableOfContents(DirectivePlugin):
 def render_html_toc(renderer: "BaseRenderer", title: str, collapse: bool = False, **attrs: Any) -> str:
     if not title:
         title = "Table of Contents"
-    content = render_toc_ul(attrs["toc"])
+    content = render_toc_ul(attrs.get("toc") or [])
 
     html = '<details class="toc"'
     if not collapse:
